@@ -67,7 +67,9 @@ impl Resolver<'_> {
             return cols;
         };
 
-        for (ident, decl) in this.as_decls().into_iter().sorted_by_key(|x| x.1.order) {
+        // declarations with equal `order` come out of a hash map: break ties by name
+        let decls = this.as_decls().into_iter();
+        for (ident, decl) in decls.sorted_by_cached_key(|x| (x.1.order, x.0.to_string())) {
             if let DeclKind::Column(_) = decl.kind {
                 cols.push(ident);
             }
